@@ -45,6 +45,28 @@ def serde_contract(e, file, struct):
     return out
 
 
+def container_contract(e, file, struct):
+    """container-level serde attributes of the struct: -> {'from': T} / {'try_from': T} / {}.  A struct that does not derive Deserialize at all
+    (hand-written impl) cannot be modelled from attributes: unsupported, never guessed."""
+    txt = '\n'.join(e.src(file))
+    m = re.search(r'\bstruct %s\s*\{' % struct, txt)
+    head = txt[:m.start()]
+    # the attribute / doc-comment block directly in front of the struct
+    lines = head.split('\n'); blk = []
+    for ln in reversed(lines[:-1] if lines[-1].strip() in ('', 'pub', 'pub(crate)') else lines):
+        t = ln.strip()
+        if t.startswith('#[') or t.startswith('///') or t.startswith('//') or t == '' and blk and False: blk.append(t)
+        elif t.endswith(')]') or t.endswith('),') or t.startswith('feature') or t.startswith('derive'): blk.append(t)      # continuation lines of a multi-line attribute
+        else: break
+    attrs = ' '.join(reversed(blk))
+    if not re.search(r'derive\([^)]*\bDeserialize\b', attrs): raise Unsupported('%s does not derive Deserialize: import cannot be modelled from the derive attributes' % struct)
+    out = {}
+    for key_ in ('try_from', 'from'):
+        mm = re.search(r'serde\([^\]]*?\b%s\s*=\s*"([^"]+)"' % key_, attrs)
+        if mm and key_ not in out and not (key_ == 'from' and 'try_from' in out): out[key_] = mm.group(1)
+    return out
+
+
 def default_value(e, ty_hint, name):
     if name in ('var_deps',): return VecObj()
     if name in ('ite_cache', 'restrict_cache', 'cache'): return MapObj()
@@ -57,6 +79,25 @@ def import_by_contract(e, adf):
     """what serde_json::from_str(serde_json::to_string(adf)) yields according to the derive attributes"""
     bdd = adf.f[e.field('Adf', 'bdd')]
     nb = import_bdd_by_contract(e, bdd)
+    cc = container_contract(e, 'lib/src/adf.rs', 'Adf')
+    if cc:
+        # #[serde(from = "T")] / try_from: serde deserialises a T by T's own derive contract and then runs the crate's real conversion
+        kind = 'try_from' if 'try_from' in cc else 'from'; sh = cc[kind].split('::')[-1]
+        cs = serde_contract(e, 'lib/src/adf.rs', sh); sf = []
+        for name in e.structs_q[('lib/src/adf.rs', sh)]:
+            rule = cs[name]
+            if name == 'bdd': sf.append(nb)
+            elif rule[0] == 'copy' and name in e.structs['Adf']: sf.append(clone_val(e, adf.f[e.field('Adf', name)]) if adf.f[e.field('Adf', name)] is not None else None)
+            elif name == 'rng': sf.append(new_rng_cell())
+            elif rule[0] == 'default': sf.append(e.default_field('lib/src/adf.rs', sh, name))
+            else: raise Unsupported('field rule %s for %s::%s' % (rule, sh, name))
+        conv = [nm for nm in e.fns if re.search(r'as (Try)?From<(\w+::)*%s>>::(try_)?from$' % re.escape(sh), nm) and 'Adf' in nm.split(' as ')[0]]
+        if not conv: raise Unsupported('conversion %s -> Adf not found in the MIR' % sh)
+        r = e.call(conv[0], [Struct(sf)])
+        if kind == 'try_from':
+            if r.v != 'Ok': raise RustPanic('import rejected by TryFrom<%s>' % sh)
+            r = r.f[0]
+        return r, r.f[e.field('Adf', 'bdd')]
     ca = serde_contract(e, 'lib/src/adf.rs', 'Adf')
     af = []
     for name in e.structs['Adf']:
@@ -69,6 +110,7 @@ def import_by_contract(e, adf):
 
 
 def import_bdd_by_contract(e, bdd):
+    if container_contract(e, 'lib/src/obdd.rs', 'Bdd'): raise Unsupported('container-level serde conversion on Bdd')
     cb = serde_contract(e, 'lib/src/obdd.rs', 'Bdd')
     fields = []
     for name in e.structs['Bdd']:
